@@ -432,6 +432,45 @@ pub fn pw_string_strat() -> impl Strategy<Value = String> {
     })
 }
 
+/// boundary values for 32-byte fields (scalars mod L, field elements mod p, point encodings)
+fn special_32() -> Vec<(String, [u8; 32])> {
+    use num_bigint::BigUint;
+    use num_traits::One;
+    let l = crate::models::ed_l();
+    let p = crate::models::fp();
+    let one = BigUint::one();
+    let mut v: Vec<(String, BigUint)> = vec![
+        ("0".into(), BigUint::from(0u32)),
+        ("1".into(), one.clone()),
+        ("L".into(), l.clone()),
+        ("L-1".into(), &l - &one),
+        ("L+1".into(), &l + &one),
+        ("2L".into(), &l * 2u32),
+        ("8L".into(), &l * 8u32),
+        ("p".into(), p.clone()),
+        ("p-1".into(), &p - &one),
+        ("p+1".into(), &p + &one),
+        ("2^255-1".into(), (&one << 255u32) - &one),
+        ("2^255".into(), &one << 255u32),
+        ("2^256-1".into(), (&one << 256u32) - &one),
+    ];
+    for k in [252u32, 253, 254] {
+        v.push((format!("2^{k}"), &one << k));
+        v.push((format!("2^{k}-1"), (&one << k) - &one));
+    }
+    let mut out: Vec<(String, [u8; 32])> = v.into_iter().map(|(n, x)| (n, crate::models::to32(&x))).collect();
+    // the order-8 / order-4 Edwards y encodings (with and without the sign bit)
+    for (n, hexs) in [
+        ("ed-order8-a", "26e8958fc2b227b045c3f489f2ef98f0d5dfac05d3c63339b13802886d53fc05"),
+        ("ed-order8-b", "c7176a703d4dd84fba3c0b760d10670f2a2053fa2c39ccc64ec7fd7792ac037a"),
+        ("ed-order4", "0000000000000000000000000000000000000000000000000000000000000080"),
+    ] {
+        let b: [u8; 32] = hex::decode(hexs).unwrap().try_into().unwrap();
+        out.push((n.into(), b));
+    }
+    out
+}
+
 fn class_inputs(entry: Entry, len: usize, k: &Keys, f: &mut Fill) -> Vec<(String, Vec<u8>)> {
     let mut v: Vec<(String, Vec<u8>)> = vec![("zeros".into(), vec![0u8; len]), ("0xff".into(), vec![0xff; len]), ("random".into(), f.bytes(len))];
     let oh = entry.overhead();
@@ -447,6 +486,18 @@ fn class_inputs(entry: Entry, len: usize, k: &Keys, f: &mut Fill) -> Vec<(String
             let mut g = valid.clone();
             let half = g.len() / 2;
             f.fill(&mut g[half..]);
+            // fixed-size fields replaced by boundary values of the quantities they encode (group order, field
+            // prime, powers of two and their neighbours, small-order encodings, constants)
+            if valid.len() >= oh && matches!(oh, 16 | 32 | 64) && !matches!(entry, Entry::Aead(_)) {
+                for (name, val) in special_32() {
+                    for off in (0..oh).step_by(32.min(oh)) {
+                        let mut x = valid.clone();
+                        let w = 32.min(oh);
+                        x[off..off + w].copy_from_slice(&val[..w]);
+                        v.push((format!("valid-with-field@{off}={name}"), x));
+                    }
+                }
+            }
             v.push(("valid".into(), valid));
             v.push(("valid-with-mutation".into(), m));
             v.push(("valid-prefix-then-garbage".into(), g));
@@ -461,7 +512,7 @@ fn class_inputs(entry: Entry, len: usize, k: &Keys, f: &mut Fill) -> Vec<(String
 }
 
 pub fn run(ctx: &mut Ctx) -> Result<(), Violation> {
-    ctx.rule = "Domain A (deterministic): for each attacker-facing entry (13 box/secretbox/sealed/precomputed/stream openers in classic and object form incl. from_bytes parsers, crypto_sign_open, crypto_sign_verify_detached, crypto_sign_final_verify + IncrementalSigner::verify, SignedMessage::from_bytes+verify, crypto_auth_verify, Auth::verify, crypto_onetimeauth_verify, OnetimeAuth::verify) EVERY input length 0..=200 x classes {zeros, 0xff, random, valid, valid-with-mutation, valid-prefix-then-garbage, valid-truncated} x fills; caller buffers sized len-overhead saturating at 0; authentic stream messages with ALL 256 tag bytes (libsodium push) to both pulls, with and without AD. Password-hash strings: grammar-based proptest strings (algorithm/version/params/salt/hash fields with omission, duplication, reordering, empty fields, bad base64, huge/negative/non-ASCII integers), random printable and random UTF-8 strings, and every prefix / single-character deletion of valid libsodium strings, to crypto_pwhash_str_verify, crypto_pwhash_str_needs_rehash and PwHash::from_string+to_string+verify; strings containing any m > 64 or t > 3 are not passed to Argon2-running entries (counted as excluded). Oracle: no panic (build has overflow checks on), per-thread largest single allocation <= 4*len + 1 MiB (+4 MiB for password entries), allocation >= 4 GiB stops the run as a violation. Non-trivial: input shorter than the fixed overhead, a mutated/truncated valid message, an authentic stream message with tag > 3, or a string that reaches a numeric field; distinct = (entry, length, class, fill).".into();
+    ctx.rule = "Domain A (deterministic): for each attacker-facing entry (13 box/secretbox/sealed/precomputed/stream openers in classic and object form incl. from_bytes parsers, crypto_sign_open, crypto_sign_verify_detached, crypto_sign_final_verify + IncrementalSigner::verify, SignedMessage::from_bytes+verify, crypto_auth_verify, Auth::verify, crypto_onetimeauth_verify, OnetimeAuth::verify) EVERY input length 0..=200 x classes {zeros, 0xff, random, valid, valid-with-mutation, valid-with-a-fixed-size-field-set-to-a-boundary-value (0, 1, L, L±1, 2L, 8L, p, p±1, 2^252..2^256-1, small-order encodings; signature and MAC entries), valid-prefix-then-garbage, valid-truncated} x fills; caller buffers sized len-overhead saturating at 0; authentic stream messages with ALL 256 tag bytes (libsodium push) to both pulls, with and without AD. Password-hash strings: grammar-based proptest strings (algorithm/version/params/salt/hash fields with omission, duplication, reordering, empty fields, bad base64, huge/negative/non-ASCII integers), random printable and random UTF-8 strings, and every prefix / single-character deletion / replacement or insertion of a 2-, 3- and 4-byte UTF-8 character at every position of valid libsodium strings, to crypto_pwhash_str_verify, crypto_pwhash_str_needs_rehash and PwHash::from_string+to_string+verify; strings containing any m > 64 or t > 3 are not passed to Argon2-running entries (counted as excluded). Oracle: no panic (build has overflow checks on), per-thread largest single allocation <= 4*len + 1 MiB (+4 MiB for password entries), allocation >= 4 GiB stops the run as a violation. Non-trivial: input shorter than the fixed overhead, a mutated/truncated valid message, an authentic stream message with tag > 3, or a string that reaches a numeric field; distinct = (entry, length, class, fill).".into();
     ctx.assumptions = vec![
         "release build with overflow-checks = true so arithmetic overflow panics".into(),
         "cost parameters bounded (m <= 64 KiB, t <= 3) whenever a string can reach Argon2, as the property states".into(),
@@ -638,6 +689,15 @@ pub fn run(ctx: &mut Ctx) -> Result<(), Violation> {
             let mut d = chars.clone();
             d[i] = '$';
             derived.push(("valid-one-char-replaced-by-$".into(), d.into_iter().collect()));
+            // multi-byte characters at every position (byte offsets computed on the assumption of ASCII break here)
+            for mb in ['\u{e9}', '\u{20ac}', '\u{1d11e}'] {
+                let mut d = chars.clone();
+                d[i] = mb;
+                derived.push(("valid-one-char-replaced-by-multibyte".into(), d.into_iter().collect()));
+                let mut d = chars.clone();
+                d.insert(i, mb);
+                derived.push(("valid-multibyte-char-inserted".into(), d.into_iter().collect()));
+            }
         }
     }
     ctx.par_each(&derived, |_, (class, s), ev| {
